@@ -121,7 +121,8 @@ type flashProbe struct {
 type flashOp struct {
 	id      int
 	browser int
-	kind    string // go | show | plain | nest
+	kind    string // go | show | plain | nest | hop | hop2
+	path    string
 	// go
 	with      []flashMsg
 	hasLevel  []bool
@@ -842,6 +843,7 @@ type flashWire struct {
 	line    string // set-cookie-string
 	value   string
 	live    bool   // found and not an expiring ("delete") cookie
+	path    string // Path attribute ("" = none: the user agent uses the request's default-path)
 	problem string // why an RFC 6265 sec. 5 user agent cannot take the value ("" = it can)
 	kind    string // header-injection | control-byte | delimiter | malformed
 }
@@ -898,6 +900,10 @@ func flashLenient(raw []byte, name, server string) flashWire {
 			}
 			an = strings.ToLower(strings.Trim(an, " \t"))
 			switch an {
+			case "path":
+				if strings.HasPrefix(av, "/") {
+					w.path = av
+				}
 			case "max-age":
 				if n, err := strconv.Atoi(av); err == nil && n <= 0 {
 					w.live = false
@@ -933,6 +939,49 @@ func flashLenient(raw []byte, name, server string) flashWire {
 		w.problem = fmt.Sprintf("the value contains ';': the user agent cuts it there and sees the rest as attribute %q", flashClip(attr))
 	}
 	return w
+}
+
+// flashDefaultPath: RFC 6265 5.1.4.
+func flashDefaultPath(reqPath string) string {
+	if i := strings.IndexAny(reqPath, "?#"); i >= 0 {
+		reqPath = reqPath[:i]
+	}
+	if i := strings.LastIndexByte(reqPath, '/'); i > 0 {
+		return reqPath[:i]
+	}
+	return "/"
+}
+
+// flashStored returns the stored flash cookie (longest path first) or nil.
+func flashStored(b *harness.Browser) *harness.BCookie {
+	var best *harness.BCookie
+	if _, ok := b.Get(flashName); !ok { // also drops what has expired by now
+		return nil
+	}
+	for _, c := range b.Cookies {
+		if c.Name != flashName {
+			continue
+		}
+		if best == nil || len(c.Path) > len(best.Path) || (len(c.Path) == len(best.Path) && c.Path < best.Path) {
+			best = c
+		}
+	}
+	return best
+}
+
+// flashStore puts a flash cookie for the given path into the client's store.
+func flashStore(b *harness.Browser, value, path string) {
+	b.Cookies[flashName+"\x00"+path] = &harness.BCookie{Name: flashName, Value: value, Path: path}
+}
+
+// flashSent: the flash cookie value a request for reqPath carries.
+func flashSent(b *harness.Browser, reqPath string) (string, bool) {
+	for _, p := range strings.Split(b.HeaderFor(reqPath), "; ") {
+		if strings.HasPrefix(p, flashName+"=") {
+			return p[len(flashName)+1:], true
+		}
+	}
+	return "", false
 }
 
 func flashClip(s string) string {
@@ -1037,8 +1086,12 @@ func flashMain(s *simrt.Sim, info *harness.RunInfo) {
 	}
 	app.Get("/hop", hop)
 	app.Get("/hop2", hop)
+	app.Get("/a/b/hop", hop)
+	app.Get("/a/b/hop2", hop)
 	app.Get("/show", show).Name("show")
 	app.Get("/plain", show)
+	app.Get("/account/show", show)
+	app.Get("/account/plain", show)
 	app.Get("/nest", show)
 	app.Handler()
 
@@ -1139,7 +1192,7 @@ func (r *flashRun) redirect(bi int) {
 	r.genGo(op)
 	r.ops = append(r.ops, op)
 	req := harness.Req{Method: "POST", Path: "/go", Headers: [][2]string{{"X-Op", strconv.Itoa(op.id)}}}
-	if ck := b.Header(); ck != "" {
+	if ck := b.HeaderFor("/go"); ck != "" {
 		req.Headers = append(req.Headers, [2]string{"Cookie", ck})
 	}
 	form := url.Values{}
@@ -1170,11 +1223,14 @@ func (r *flashRun) redirect(bi int) {
 		return
 	}
 	r.noneExpected(op, resp, "POST /go without a flash cookie")
-	_, err := b.Apply(resp, "POST")
+	_, err := b.ApplyAt(resp, "POST", "/go")
 	wire := flashLenient(resp.Raw, flashName, op.srvCookie)
 	st.pending, st.hostile, st.tier, st.after = nil, nil, "", false
-	sv, stored := b.Get(flashName)
-	outcome := r.issue(bi, op, wire, err, "POST /go", sv, stored)
+	sv, spath, stored := "", "", false
+	if c := flashStored(b); c != nil {
+		sv, spath, stored = c.Value, c.Path, true
+	}
+	outcome := r.issue(bi, op, wire, err, "POST /go", "/go", sv, spath, stored)
 	r.remember(op.with)
 	r.remember(op.inputs)
 	s.Logf("op%d ret status=%d location=%q set-cookie=%v tier=%s", op.id, resp.Status, resp.Get("Location"), wire.live, outcome)
@@ -1184,7 +1240,7 @@ func (r *flashRun) redirect(bi int) {
 // issue: which client tier takes the cookie a redirect wrote. err, sv, stored are
 // the strict client's verdict on this response alone (a store that was empty
 // before); the caller has already removed any previous flash cookie.
-func (r *flashRun) issue(bi int, op *flashOp, wire flashWire, err error, what, sv string, stored bool) string {
+func (r *flashRun) issue(bi int, op *flashOp, wire flashWire, err error, what, reqPath, sv, spath string, stored bool) string {
 	s := r.s
 	b, st := r.browsers[bi], r.st[bi]
 	attached := len(flashExpected(op)[0]) > 0
@@ -1215,7 +1271,8 @@ func (r *flashRun) issue(bi int, op *flashOp, wire flashWire, err error, what, s
 			r.fail("C12.deliver-no-cookie", "op%d b%d: %s redirecting with %s %s issued no %s cookie", op.id, bi, what, flashList(op.with), flashList(op.inputs), flashName)
 		}
 	case strictOK:
-		b.Set(flashName, sv)
+		b.Del(flashName)
+		flashStore(b, sv, spath)
 		st.pending, st.tier = op, "strict"
 		outcome = "strict"
 	case wire.problem != "":
@@ -1225,11 +1282,16 @@ func (r *flashRun) issue(bi int, op *flashOp, wire flashWire, err error, what, s
 			id = "C12.header-injection"
 		}
 		r.fail(id, "op%d b%d: %s redirecting with %s %s: %s", op.id, bi, what, flashList(op.with), flashList(op.inputs), wire.problem)
-		delete(b.Cookies, flashName)
+		b.Del(flashName)
 		outcome = "undeliverable"
 		s.Count("probe_cookie_unusable_for_any_client")
 	default:
-		b.Set(flashName, wire.value)
+		path := wire.path
+		if path == "" {
+			path = flashDefaultPath(reqPath)
+		}
+		b.Del(flashName)
+		flashStore(b, wire.value, path)
 		st.pending, st.tier = op, "lenient"
 		outcome = "lenient"
 		s.Count("probe_lenient_client_fallback")
@@ -1279,10 +1341,28 @@ func (r *flashRun) request(bi int, kind string, depth int) {
 		r.genWith(op, simrt.PickS(s, 1, 2, 3), &budget)
 	}
 	hopping := kind == "hop" || kind == "hop2"
+	// consumers also live below the root: the client scopes cookies by path
+	path := "/" + kind
+	if kind != "nest" && s.Chance(350) {
+		if hopping {
+			path = "/a/b/" + kind
+		} else {
+			path = "/account/" + kind
+		}
+	}
+	op.path = path
 	r.ops = append(r.ops, op)
-	cookie, has := b.Get(flashName)
+	cookie, has := flashSent(b, path)
 	pending, hostile := st.pending, st.hostile
-	st.pending, st.hostile = nil, nil
+	if !has {
+		pending, hostile = nil, nil // a cookie scoped to another path stays where it is
+	} else {
+		st.pending, st.hostile = nil, nil
+	}
+	oldPath := ""
+	if c := flashStored(b); c != nil {
+		oldPath = c.Path
+	}
 
 	// keys to look up one by one
 	var pool []flashMsg
@@ -1309,8 +1389,8 @@ func (r *flashRun) request(bi int, kind string, depth int) {
 		op.probeKeys = append(op.probeKeys, "absent")
 	}
 
-	req := harness.Req{Method: "GET", Path: "/" + kind, Headers: [][2]string{{"X-Op", strconv.Itoa(op.id)}}}
-	if ck := b.Header(); ck != "" {
+	req := harness.Req{Method: "GET", Path: path, Headers: [][2]string{{"X-Op", strconv.Itoa(op.id)}}}
+	if ck := b.HeaderFor(path); ck != "" {
 		req.Headers = append(req.Headers, [2]string{"Cookie", ck})
 	}
 	decoy := false
@@ -1322,7 +1402,7 @@ func (r *flashRun) request(bi int, kind string, depth int) {
 		other := (bi + 1 + s.Draw(r.nb-1)) % r.nb
 		op.nested = func() { r.step(other, depth+1) }
 	}
-	what := "GET /" + kind
+	what := "GET " + path
 	switch {
 	case pending != nil:
 		what += fmt.Sprintf(" carrying the cookie of op%d (%s client)", pending.id, st.tier)
@@ -1348,7 +1428,7 @@ func (r *flashRun) request(bi int, kind string, depth int) {
 	if len(raw) > 3600 {
 		// beyond one read buffer: not a case of this property
 		s.Count("probe_request_too_long_skipped")
-		delete(b.Cookies, flashName)
+		b.Del(flashName)
 		op.ran = true
 		return
 	}
@@ -1356,21 +1436,30 @@ func (r *flashRun) request(bi int, kind string, depth int) {
 	if r.dead {
 		return
 	}
-	_, applyErr := b.Apply(resp, "GET")
+	_, applyErr := b.ApplyAt(resp, "GET", path)
 	if applyErr != nil && !hopping {
 		r.fail("C12.strict-client-response", "op%d b%d: net/http cannot parse the response to %s: %v", op.id, bi, what, applyErr)
 	}
 	// a hop writes a redirect of its own: what do the clients make of this response alone
 	var wire flashWire
-	var psv string
+	var psv, ppath string
 	var pstored bool
 	if hopping {
 		wire = flashLenient(resp.Raw, flashName, op.srvCookie)
 		probe := harness.NewBrowser("probe")
-		_, _ = probe.Apply(resp, "GET")
-		psv, pstored = probe.Get(flashName)
+		_, _ = probe.ApplyAt(resp, "GET", path)
+		if c := flashStored(probe); c != nil {
+			psv, ppath, pstored = c.Value, c.Path, true
+		}
 	}
-	replaced := kind == "hop2" && wire.live // a new cookie of the same name takes the place of the old one
+	// a new cookie of the same name and path takes the place of the old one
+	newPath := wire.path
+	if newPath == "" {
+		newPath = flashDefaultPath(path)
+	}
+	// (if no client can read the new cookie its scope is unknowable: that is the wire-format
+	// finding issue() reports, and nothing is said about the expiry that depends on it)
+	replaced := kind == "hop2" && wire.live && (wire.problem != "" || newPath == oldPath)
 	s.Logf("op%d ret status=%d ran=%v observed=%s", op.id, resp.Status, op.ran, flashList(op.msgs))
 	r.checkProbes(op, what)
 	outcome := "none"
@@ -1379,26 +1468,28 @@ func (r *flashRun) request(bi int, kind string, depth int) {
 		outcome = r.checkDelivery(op, pending, st.tier, resp, what, cookie)
 		// (once) the response must have expired the cookie in the client's store
 		if outcome == "rejected" {
-			delete(b.Cookies, flashName) // the exchange failed before: nothing to say about expiry
+			b.Del(flashName) // the exchange failed before: nothing to say about expiry
 		} else if replaced {
 			// settled below: whichever client tier can take the new cookie holds it instead
 		} else if _, still := b.Get(flashName); still {
 			r.fail("C12.once-cookie-not-expired", "op%d b%d: the response to %s leaves the cookie in the client's store (Set-Cookie lines: %q): a conforming client presents the messages of op%d again", op.id, bi, what, resp.Header["Set-Cookie"], pending.id)
-			delete(b.Cookies, flashName) // re-synchronise: act as if it had been expired
+			b.Del(flashName) // re-synchronise: act as if it had been expired
 		}
 		st.after = true
 	case hostile != nil:
 		outcome = r.checkHostile(op, hostile, resp, cookie, hclass, hmsgs, hwhy, hplain)
-		delete(b.Cookies, flashName)
+		b.Del(flashName)
 		st.after = false
 	default:
 		r.noneExpected(op, resp, what)
 		st.after = false
 	}
 	if hopping && op.ran {
-		delete(b.Cookies, flashName) // the previous cookie has been judged above
+		if has {
+			b.Del(flashName) // the previous cookie has been judged above
+		}
 		if kind == "hop2" {
-			outcome += "+" + r.issue(bi, op, wire, applyErr, what, psv, pstored)
+			outcome += "+" + r.issue(bi, op, wire, applyErr, what, path, psv, ppath, pstored)
 			r.remember(op.with)
 			st.after = false
 		} else if applyErr != nil {
@@ -1476,7 +1567,7 @@ func (r *flashRun) foreign(obs []flashMsg, cookie string, plain [][]byte) string
 
 func (r *flashRun) checkHostile(op *flashOp, h *flashHostile, resp *harness.Resp, cookie string, class int, dec []flashMsg, why string, plain [][]byte) string {
 	s := r.s
-	what := fmt.Sprintf("GET /%s carrying %s (%d bytes %q, %s: %s)", op.kind, h.desc, len(cookie), flashClip(cookie), flashClassName[class], why)
+	what := fmt.Sprintf("GET %s carrying %s (%d bytes %q, %s: %s)", op.path, h.desc, len(cookie), flashClip(cookie), flashClassName[class], why)
 	if resp.Status == 0 || len(resp.Raw) == 0 {
 		r.fail("C12.hostile-answered", "op%d b%d %s: no response", op.id, op.browser, what)
 		return "unanswered"
